@@ -1112,6 +1112,7 @@ func (g *Graph) isParam(v *types.Var) bool {
 type Query struct {
 	From      []*GNode          // start nodes (execution starts *after* these nodes unless FromEntry)
 	FromEntry bool              // start at function entry (before the first node)
+	FromAt    []*GNode          // start nodes that are executed first (their effect on tracked variables counts)
 	AvoidNode func(*GNode) bool // nodes that may not be passed (a start node itself is not tested)
 	AvoidEdge func(*GEdge) bool // edges that may not be taken
 	NoFlags   bool              // ignore flag valuations (path-insensitive)
@@ -1165,6 +1166,13 @@ func (g *Graph) Reach(q Query) map[*GNode]bool {
 	for _, n := range q.From {
 		leave(n, 0)
 	}
+	for _, n := range q.FromAt {
+		v := Val(0)
+		if !q.NoFlags {
+			v = g.transfer(n, 0)
+		}
+		leave(n, v)
+	}
 	for len(work) > 0 {
 		s := work[len(work)-1]
 		work = work[:len(work)-1]
@@ -1217,6 +1225,13 @@ func (g *Graph) ReachVals(q Query) map[*GNode]map[Val]bool {
 	}
 	for _, n := range q.From {
 		leave(n, 0)
+	}
+	for _, n := range q.FromAt {
+		v := Val(0)
+		if !q.NoFlags {
+			v = g.transfer(n, 0)
+		}
+		leave(n, v)
 	}
 	for len(work) > 0 {
 		s := work[len(work)-1]
